@@ -8,7 +8,10 @@ import (
 	"fmt"
 	"io"
 	"reflect"
+	"runtime"
 	"strings"
+	"sync"
+	"sync/atomic"
 
 	gots "github.com/Comcast/gots/v2"
 	"github.com/Comcast/gots/v2/packet"
@@ -97,6 +100,41 @@ func (o oneByte) Read(p []byte) (int, error) {
 		return 0, nil
 	}
 	return o.r.Read(p[:1])
+}
+
+// gated hands out 188 bytes per Read; its Read number gateAt (counted from 0) does not answer before the gate is
+// opened. state: 0 = that Read has not been asked for, 1 = it is waiting, 2 = it has answered.
+type gated struct {
+	data   []byte
+	reads  int
+	gateAt int
+	gate   chan struct{}
+	done   chan struct{}
+	once   sync.Once
+	state  int32
+}
+
+func (g *gated) Read(p []byte) (int, error) {
+	idx := g.reads
+	g.reads++
+	if idx == g.gateAt {
+		atomic.StoreInt32(&g.state, 1)
+		<-g.gate
+	}
+	if len(g.data) == 0 {
+		if idx == g.gateAt {
+			atomic.StoreInt32(&g.state, 2)
+			g.done <- struct{}{}
+		}
+		return 0, io.EOF
+	}
+	n := copy(p, g.data[:188])
+	g.data = g.data[n:]
+	if idx == g.gateAt {
+		atomic.StoreInt32(&g.state, 2)
+		g.done <- struct{}{}
+	}
+	return n, nil
 }
 
 type chunked struct {
@@ -754,6 +792,92 @@ func run(c *mon.Ctx) {
 			})
 		}
 		c.Class(fmt.Sprintf("overlap/%s/k=%d", op, min(k, 4)))
+	})
+	// the adapter is used again after a ReadFrom that ended with a failing packet write, and the reader of that call is
+	// a slow one: its next Read (which a ReadFrom that reads ahead has already asked for) only answers later - while
+	// the adapter is busy with the next call. The next call delivers its own bytes.
+	c.Stream("overlapping-reader-of-an-earlier-readfrom", c.N(400, 40000), func(i int, r *gen.Rand) {
+		failAt := r.Intn(4)
+		data := r.Bytes(188 * (failAt + 3))
+		g := &gated{data: data, gateAt: failAt + 1, gate: make(chan struct{}), done: make(chan struct{}, 1)}
+		release := func() { g.once.Do(func() { close(g.gate) }) }
+		defer release()
+		phase2 := false
+		var delivered [][]byte
+		sk := packet.PacketWriterFunc(func(p *packet.Packet) (int, error) {
+			if !phase2 {
+				if len(delivered) == failAt {
+					// (a packet writer that takes its time to fail: a ReadFrom that reads ahead has asked its reader
+					// for the next packet by then)
+					for spin := 0; spin < 500 && atomic.LoadInt32(&g.state) == 0; spin++ {
+						runtime.Gosched()
+					}
+					return 0, errW
+				}
+				delivered = append(delivered, append([]byte{}, p[:]...))
+				return packet.PacketSize, nil
+			}
+			if atomic.LoadInt32(&g.state) == 1 {
+				// the slow reader answers now, while this packet is being handled
+				release()
+				c.ExternalWait(func() { <-g.done })
+			}
+			delivered = append(delivered, append([]byte{}, p[:]...))
+			return packet.PacketSize, nil
+		})
+		w := packet.IOWriter(sk)
+		type res struct {
+			n   int64
+			err error
+		}
+		ret := make(chan res, 1)
+		go func() {
+			n, err := w.(io.ReaderFrom).ReadFrom(g)
+			ret <- res{n, err}
+		}()
+		var first res
+		returned := false
+		for spin := 0; spin < 200000 && !returned; spin++ {
+			select {
+			case first = <-ret:
+				returned = true
+			default:
+				runtime.Gosched()
+			}
+		}
+		if !returned {
+			// the call waits for its reader (it may): let the reader answer, then the call is over
+			release()
+			c.ExternalWait(func() { first = <-ret })
+			c.Count("overlap.readfrom_waited_for_its_reader")
+		}
+		c.Eval(1)
+		if first.err == nil || len(delivered) != failAt || first.n != int64(failAt*188) {
+			c.Fail("ReadFrom:writer-error-not-returned", fmt.Sprintf("ReadFrom with a packet writer that fails at packet %d returned n=%d err=%v after %d deliveries", failAt, first.n, first.err, len(delivered)), wit{Op: "ReadFrom", Packets: failAt + 3, FailWrite: failAt, FailRead: -1})
+			return
+		}
+		// give a reading-ahead goroutine the chance to have asked its reader already
+		for spin := 0; spin < 2000 && atomic.LoadInt32(&g.state) == 0; spin++ {
+			runtime.Gosched()
+		}
+		if atomic.LoadInt32(&g.state) == 1 {
+			c.Count("overlap.reader_still_being_read_when_readfrom_had_returned")
+		}
+		phase2, delivered = true, nil
+		k := 1 + r.Intn(3)
+		own := r.Bytes(188 * k)
+		snap := append([]byte{}, own...)
+		n, err := w.Write(own)
+		c.Eval(1)
+		c.Count("overlap.adapter_reused_after_a_failed_readfrom")
+		ok := err == nil && n == len(snap) && len(delivered) == k
+		for j := 0; ok && j < k; j++ {
+			ok = bytes.Equal(delivered[j], snap[j*188:(j+1)*188])
+		}
+		if !ok {
+			c.Fail("overlap:write-after-a-failed-readfrom", fmt.Sprintf("Write of %d packets on an adapter whose earlier ReadFrom had ended with a failing packet write (at packet %d; that call's reader answered its outstanding Read during this Write): n=%d err=%v, %d packets delivered, or some with other bytes than the slice holds", k, failAt, n, err, len(delivered)), wit{Op: "Write after ReadFrom", Packets: k, FailWrite: failAt, FailRead: -1})
+		}
+		c.Class(fmt.Sprintf("overlap/after-failed-readfrom/fail=%d/k=%d", failAt, k))
 	})
 	c.Stream("random", c.N(6000, 20000000), func(i int, r *gen.Rand) {
 		k := r.Intn(12)
